@@ -248,6 +248,15 @@ def ac_shared(x):
   return pool.fc(inner, q=[inner])
 
 
+@_ac.auto_config(experimental_always_inline=False)
+def ac_chain(f):
+  import functools
+  base = functools.partial(pool.fb2, f)
+  train = functools.partial(base, y=1)
+  evaluate = functools.partial(base, y=100)
+  return pool.fc(base, q=[train, evaluate])
+
+
 def inline_case(_=None):
   """auto_config.inline on a Config of an auto_config function (at the root, nested, inside
   containers, with shared arguments, returning objects / partials / nested auto_config results):
@@ -268,6 +277,8 @@ def inline_case(_=None):
       'result with internal sharing': (lambda: fdl.Config(pool.fc, fdl.Config(ac_shared, 9)), lambda r: r.p),
       'argument shared with another node': (lambda: fdl.Config(pool.fc, fdl.Config(ac_object, shared_arg), q=shared_arg),
                                             lambda r: r.p),
+      'a named partial specialised twice': (lambda: fdl.Config(ac_chain, 3), lambda r: r),
+      'a named partial specialised twice, nested': (lambda: fdl.Config(pool.fc, [fdl.Config(ac_chain, 4)]), lambda r: r.p[0]),
       'inlined node referenced twice': (lambda: (lambda n: fdl.Config(pool.fc, n, q=[n]))(fdl.Config(ac_object, 6)),
                                         lambda r: r.p),
   }
